@@ -1608,6 +1608,18 @@ def _handle_count_stage(in_collection, database, options):
     return [{options: len(in_collection)}]
 
 
+def _handle_limit_stage(in_collection, unused_database, options):
+    if isinstance(options, int) and options <= 0:
+        raise OperationFailure('the limit must be positive')
+    return in_collection[:options]
+
+
+def _handle_skip_stage(in_collection, unused_database, options):
+    if isinstance(options, int) and options < 0:
+        raise OperationFailure('Argument to $skip cannot be negative')
+    return in_collection[options:]
+
+
 def _handle_facet_stage(in_collection, database, options):
     out_collection_by_pipeline = {}
     for pipeline_title, pipeline in options.items():
@@ -1636,7 +1648,7 @@ _PIPELINE_HANDLERS = {
     '$graphLookup': _handle_graph_lookup_stage,
     '$group': _handle_group_stage,
     '$indexStats': None,
-    '$limit': lambda c, d, o: c[:o],
+    '$limit': _handle_limit_stage,
     '$listLocalSessions': None,
     '$listSessions': None,
     '$lookup': _handle_lookup_stage,
@@ -1650,7 +1662,7 @@ _PIPELINE_HANDLERS = {
     '$replaceWith': None,
     '$sample': _handle_sample_stage,
     '$set': _handle_add_fields_stage,
-    '$skip': lambda c, d, o: c[o:],
+    '$skip': _handle_skip_stage,
     '$sort': _handle_sort_stage,
     '$sortByCount': None,
     '$unset': None,
